@@ -1,7 +1,7 @@
 //! `flow`: general random mix of everything, ending in a benign drain.
 
 use super::util::{connack_props, rand_cfg, rand_publish, rand_subscribe, rand_unsubscribe};
-use super::{ConnSpec, Drv, Out, Sp};
+use super::{wire, ConnSpec, Drv, Out, Sp};
 use crate::parse::PropSpec;
 
 /// CONNACK properties with a small Receive Maximum in half of the cases.
@@ -99,7 +99,14 @@ pub fn flow(out: &mut Out, count: u64) {
                             d.send(&o);
                         }
                         1 => {
-                            if let Some(o) = d.broker.dup_last() {
+                            if let Some(mut o) = d.broker.dup_last() {
+                                // A duplicate PUBREC that now carries a failure code (its PUBREL may
+                                // already be queued): the client reports the rejection and keeps the
+                                // release.
+                                if o.bytes[0] == 0x50 && d.rng.pct(40) {
+                                    o.kind = "dup-pubrec-fail";
+                                    o.bytes = wire::ack(0x50, o.pid, Some(0x80), None);
+                                }
                                 d.send(&o);
                             }
                         }
